@@ -188,7 +188,7 @@ func c03Gen(seed int64, tier string, batch, i int) c03Input {
 	case c < 9:
 		in.Entry, in.Cat = "resolve-gen", "exe-mutated"
 		in.Backend = []string{"iface", "any", "reflect"}[r.Intn(3)]
-	case c < 12:
+	case c < 11 || (c == 11 && r.Intn(2) == 0):
 		in.Entry, in.Cat = "resolve-zoo", "zoo-adversarial"
 		in.Text = c03ZooAdversarial[r.Intn(len(c03ZooAdversarial))]
 		if r.Intn(3) == 0 {
@@ -201,7 +201,7 @@ func c03Gen(seed int64, tier string, batch, i int) c03Input {
 				in.Vars[k] = c03RandJSON(r, 2)
 			}
 		}
-	case c == 12 && r.Intn(2) == 0:
+	case c == 11 && r.Intn(2) == 0:
 		// random fragment graphs (cyclic or not): spreads in random order, through fields and inline fragments
 		in.Entry, in.Cat = "resolve-zoo", "fragment-graph"
 		nf := 2 + r.Intn(5)
@@ -224,6 +224,41 @@ func c03Gen(seed int64, tier string, batch, i int) c03Input {
 			b.WriteString(" }\n")
 		}
 		in.Text = b.String()
+	case c == 12:
+		if r.Intn(2) == 0 {
+			// reflection over abstract-typed fields whose Go values bind to no (or the wrong) GraphQL type
+			in.Entry, in.Cat = "resolve-unbound", "unbound-go-values"
+			in.Text = c03UnboundRequests[r.Intn(len(c03UnboundRequests))]
+			if r.Intn(4) == 0 {
+				in.Text = mut(in.Text)
+			}
+			break
+		}
+		// random directive definition graphs: directives used on the arguments of directives, acyclic, self-cyclic,
+		// mutually cyclic, or merely REACHING a cycle they are not part of
+		in.Entry, in.Cat = "sdl", "directive-graph"
+		nd := 1 + r.Intn(5)
+		var b strings.Builder
+		for di := 0; di < nd; di++ {
+			fmt.Fprintf(&b, "directive @d%d", di)
+			if na := r.Intn(3); na > 0 {
+				b.WriteString("(")
+				for ai := 0; ai < na; ai++ {
+					fmt.Fprintf(&b, "a%d: %s", ai, []string{"Int", "String", "[Int]", "Boolean = true"}[r.Intn(4)])
+					for k, m := 0, r.Intn(3); k < m; k++ {
+						fmt.Fprintf(&b, " @d%d", r.Intn(nd))
+					}
+					b.WriteString(" ")
+				}
+				b.WriteString(")")
+			}
+			b.WriteString(" on ARGUMENT_DEFINITION | OBJECT | FIELD_DEFINITION | ENUM_VALUE | INPUT_FIELD_DEFINITION\n")
+		}
+		fmt.Fprintf(&b, "type Query @d%d { f(x: Int @d%d): Int @d%d }\ninput In { v: Int @d%d }\nenum E { A @d%d }\n", r.Intn(nd), r.Intn(nd), r.Intn(nd), r.Intn(nd), r.Intn(nd))
+		in.Text = b.String()
+		if r.Intn(3) == 0 {
+			in.Entry = "sdl-on-loaded"
+		}
 	case c < 14:
 		in.Entry, in.Cat = "resolve-zoo", "zoo-valid-random-vars"
 		rq := zoo.Requests[r.Intn(len(zoo.Requests))]
@@ -274,6 +309,61 @@ func c03Gen(seed int64, tier string, batch, i int) c03Input {
 		}
 	}
 	return in
+}
+
+// ---------------------------------------------------------------- Go values that bind to nothing
+
+const c03UnboundSDL = `type Query { pet: Pet pets: [Pet] u: U us: [U] cat: Cat grid: [[Pet]] }
+interface Pet { name: String friend: Pet }
+type Cat implements Pet { name: String friend: Pet lives: Int }
+type Dog implements Pet { name: String friend: Pet }
+union U = Cat | Dog`
+
+type c03UCat struct {
+	Name   string
+	Friend interface{}
+	Lives  int
+}
+
+// c03Stranger has the fields of a Pet but its Go type is bound to no GraphQL type (no name match, no @go, never registered).
+type c03Stranger struct {
+	Name   string
+	Friend interface{}
+}
+
+type c03UQuery struct {
+	Pet  interface{}
+	Pets []interface{}
+	U    interface{}
+	Us   []interface{}
+	Cat  interface{}
+	Grid [][]interface{}
+}
+
+func c03UnboundData(r *rand.Rand) *c03UQuery {
+	var vals []interface{}
+	stranger := &c03Stranger{Name: "stranger"}
+	stranger.Friend = stranger
+	cat := &c03UCat{Name: "tom", Lives: 9}
+	cat.Friend = stranger
+	vals = []interface{}{stranger, cat, c03Stranger{Name: "by value"}, nil, (*c03UCat)(nil), (*c03Stranger)(nil), 42, "a string", 1.5, true,
+		map[string]interface{}{"name": "map"}, []interface{}{cat}, []int{1}, struct{}{}, &struct{ X int }{3}, func() {}, make(chan int), [2]int{1, 2}, &vals}
+	pick := func() interface{} { return vals[r.Intn(len(vals))] }
+	q := &c03UQuery{Pet: pick(), U: pick(), Cat: pick()}
+	for i, n := 0, r.Intn(4); i < n; i++ {
+		q.Pets = append(q.Pets, pick())
+		q.Us = append(q.Us, pick())
+		q.Grid = append(q.Grid, []interface{}{pick(), pick()})
+	}
+	return q
+}
+
+var c03UnboundRequests = []string{
+	`{ pet { name } }`, `{ pet { __typename name friend { name friend { name } } } }`, `{ pets { name ... on Cat { lives } ... on Dog { name } } }`,
+	`{ u { ... on Cat { name lives } ... on Dog { name } __typename } }`, `{ us { __typename ... on Pet { name friend { __typename } } } }`,
+	`{ cat { name lives friend { name } } }`, `{ grid { name ...F } } fragment F on Pet { friend { name } __typename }`,
+	`{ pet { ... on Cat { friend { ... on Dog { friend { name } } } } } pets { friend { friend { friend { name } } } } }`,
+	`{ __typename pet { __typename } pets { __typename } u { __typename } us { __typename } cat { __typename } }`,
 }
 
 // ---------------------------------------------------------------- child
@@ -338,7 +428,25 @@ func c03Tick() {
 	}
 }
 
-func c03SetBudget(n int) { c03Steps, c03Budget = 0, 64*(n+1)+4096 }
+func c03SetBudget(n int) {
+	c03Steps, c03Budget = 0, 64*(n+1)+4096
+	c03Yields, c03YieldBudget = 0, 2000000+2000*n
+}
+
+// Loops outside the scanner: every lazy-registration site of the resolver carries a verifYield hook; one request over
+// the small data graphs used here passes a few hundred of them, so millions of hits inside ONE call mean the resolver
+// is going round in circles (e.g. a type lookup that is retried forever). Deterministic, like the scanner budget.
+var c03Yields, c03YieldBudget int
+
+func c03Yield(site string) {
+	c03Yields++
+	if c03YieldBudget > 0 && c03Yields > c03YieldBudget {
+		b := c03YieldBudget
+		c03YieldBudget = 0
+		c03Budget = 0
+		panic(livelock{c03Yields, b})
+	}
+}
 
 var frameRe = regexp.MustCompile(`github\.com/uhn/ggql/pkg/ggql\.((?:\(\*?\w+\)\.)?[\w.]+)\(`)
 
@@ -356,9 +464,10 @@ func innermostFrame(stack string) string {
 // c03Run executes one input in-process; status is "ok", "panic|<class>|<detail>" or "livelock|<class>|<detail>".
 func c03Run(in c03Input) (status string, stack string) {
 	ggql.VerifTick = c03Tick
+	ggql.VerifYield = c03Yield
 	var pv interface{}
 	pv, stack = run.Protect(func() { c03Exec(in) })
-	c03Budget = 0
+	c03Budget, c03YieldBudget = 0, 0
 	if pv == nil {
 		return "ok", ""
 	}
@@ -419,6 +528,19 @@ func c03Exec(in c03Input) {
 		c03SetBudget(len(in.Text))
 		res := root.ResolveString(in.Text, in.Op, in.Vars)
 		c03Budget = 0
+		var b bytes.Buffer
+		_ = ggql.WriteJSONValue(&b, res, r.Intn(3)-1)
+	case "resolve-unbound":
+		root := ggql.NewRoot(c03UnboundData(r))
+		if err := root.ParseString(c03UnboundSDL); err != nil {
+			panic(err)
+		}
+		if r.Intn(2) == 0 {
+			_ = root.RegisterType(&c03UCat{}, "Cat")
+		}
+		c03SetBudget(len(in.Text))
+		res := root.ResolveString(in.Text, in.Op, in.Vars)
+		c03Budget, c03YieldBudget = 0, 0
 		var b bytes.Buffer
 		_ = ggql.WriteJSONValue(&b, res, r.Intn(3)-1)
 	case "resolve-gen":
